@@ -97,7 +97,7 @@ def run(task):
         # ---- call histories: ONE alignment object recomputed with every dissimilarity, forwards and backwards
         #      (a value cached on the alignment under a too coarse key would be observed)
         rl = recipes(labels, tier)
-        for nts in enum[:3]:
+        for nts in enum[:2]:
             for attach in (True, False):
                 al = lib_alignment(pa, nts, c if attach else None)
                 for recipe in rl + rl[::-1][1:]:
